@@ -15,8 +15,16 @@ pub enum Resp {
     Interrupt,
 }
 
+/// the injected failure: recognised by its message, its kind cycles through the kinds a real device
+/// reports (Interrupted excepted, which std retries) — whatever the kind, it is an I/O error of the source
 fn injected() -> io::Error {
-    io::Error::new(io::ErrorKind::Other, "injected fault")
+    use std::sync::atomic::{AtomicUsize, Ordering};
+    static N: AtomicUsize = AtomicUsize::new(0);
+    const KINDS: [io::ErrorKind; 6] = [
+        io::ErrorKind::Other, io::ErrorKind::UnexpectedEof, io::ErrorKind::InvalidInput,
+        io::ErrorKind::InvalidData, io::ErrorKind::BrokenPipe, io::ErrorKind::PermissionDenied,
+    ];
+    io::Error::new(KINDS[N.fetch_add(1, Ordering::Relaxed) % KINDS.len()], "injected fault")
 }
 
 /// shared fault/schedule controller: a PRNG-driven or explicit schedule, plus one optional fault
@@ -33,6 +41,7 @@ pub struct Ctl {
     pub flushes: Cell<u64>,
     pub bytes_written: Cell<u64>,
     pub committed: Cell<u64>,         // bytes_written at the last successful flush
+    pub oneshot: Cell<bool>,          // the fault fires once, then the component works again
     /// fault: (component, ordinal or byte position)
     pub fault: Cell<Option<(u8, u64)>>, // 0 write-at-byte, 1 flush#, 2 read#, 3 seek#
     pub fired_at: Cell<Option<u64>>,    // the public call in progress when the fault fired
@@ -44,7 +53,7 @@ impl Ctl {
         Rc::new(Ctl {
             explicit: RefCell::new(Vec::new()), rng: RefCell::new(None), mode: Cell::new(0), tick: Cell::new(0),
             calls: RefCell::new(Vec::new()), writes: Cell::new(0), reads: Cell::new(0), seeks: Cell::new(0),
-            start_seeks: Cell::new(0), flushes: Cell::new(0), bytes_written: Cell::new(0), committed: Cell::new(0), fault: Cell::new(None),
+            start_seeks: Cell::new(0), flushes: Cell::new(0), bytes_written: Cell::new(0), committed: Cell::new(0), oneshot: Cell::new(false), fault: Cell::new(None),
             fired_at: Cell::new(None), public_call: Cell::new(0), read_load: RefCell::new(Vec::new()),
         })
     }
@@ -101,6 +110,9 @@ impl Write for Sched {
                     return Ok(n);
                 }
                 c.fire();
+                if c.oneshot.get() {
+                    c.fault.set(None);
+                }
                 return Err(injected());
             }
         }
@@ -119,6 +131,9 @@ impl Write for Sched {
         c.flushes.set(k + 1);
         if c.fault.get() == Some((1, k)) {
             c.fire();
+            if c.oneshot.get() {
+                c.fault.set(None);
+            }
             return Err(injected());
         }
         c.committed.set(c.bytes_written.get());
@@ -398,8 +413,11 @@ pub fn generate_c12<W: Write>(c: &mut Cases<W>, rng: &mut Rng, thorough: bool) {
             c.line(&format!("plainlen {}", plain.len()));
             let mut positions: Vec<Option<u64>> = (0..plain.len() as u64).filter(|p| plain.len() < 700 || p % 7 == 0 || *p + 30 > plain.len() as u64).map(Some).collect();
             positions.push(None); // flush fault
-            for p in positions {
+            // every position twice: a device that stays broken, and one that fails that once and works again
+            let positions: Vec<(Option<u64>, bool)> = positions.iter().map(|p| (*p, false)).chain(positions.iter().map(|p| (*p, true))).collect();
+            for (p, oneshot) in positions {
                 let ctl = Ctl::new();
+                ctl.oneshot.set(oneshot);
                 ctl.fault.set(Some(match p { Some(p) => (0, p), None => (1, 0) }));
                 let mut failed: Option<(usize, String)> = None;
                 let r = catch(|| {
